@@ -115,6 +115,21 @@ func (c *Ctx) Tabled(table, key string) (string, bool) {
 			c.tableUsed[table][k] = true
 			return r, ok
 		}
+		// instances numbered per function ("… #2"): the construct kept its kind but not its ordinal
+		base := k
+		if i := strings.LastIndex(base, " #"); i > 0 {
+			base = base[:i]
+		}
+		var cands []string
+		for tk := range t {
+			if tk == base || strings.HasPrefix(tk, base+" #") {
+				cands = append(cands, tk)
+			}
+		}
+		if len(cands) == 1 {
+			c.tableUsed[table][cands[0]] = true
+			return t[cands[0]], true
+		}
 	}
 	return r, ok
 }
